@@ -17,6 +17,7 @@ import (
 	"net/http/httptest"
 	"net/url"
 	"reflect"
+	"strconv"
 	"strings"
 	"time"
 	"unsafe"
@@ -44,6 +45,15 @@ func newWorld(injection bool) *world {
 	w.ws.OnDial = func(u *url.URL, h http.Header) (*vws.Conn, error) {
 		if strings.Contains(u.Path, "fail") {
 			return nil, fmt.Errorf("dial tcp: connection refused")
+		}
+		if strings.Contains(u.Path, "redir") {
+			// the backend answers the handshake with a redirect instead of 101
+			code, _ := strconv.Atoi(u.Query().Get("code"))
+			if code == 0 {
+				code = 302
+			}
+			req, _ := http.NewRequest("GET", "http://backend.test:8080"+u.RequestURI(), nil)
+			return nil, &vws.BadHandshake{Resp: &http.Response{StatusCode: code, Header: http.Header{"Location": {u.Query().Get("to")}}, Body: http.NoBody, Request: req}}
 		}
 		c, s := vws.Pair("agent-ws"+u.Path, "backend-ws"+u.Path)
 		w.clients = append(w.clients, c)
@@ -826,6 +836,67 @@ func c12Opens(paths []string, pb int) vx.Scenario {
 		}}
 }
 
+// ---------------- C13: concurrent opens and handshake answers ----------------
+
+// c13Opens opens shim sessions concurrently, some of them naming foreign hosts;
+// whatever the interleaving and whatever the backend answers to the handshake,
+// every connection the agent dials must go to the configured backend.
+func c13Opens(urls []string, pb int) vx.Scenario {
+	return vx.Scenario{Name: fmt.Sprintf("c13/opens/%q", urls), PB: pb, MaxSteps: 20000, MaxTime: time.Minute,
+		Setup: func(s *vs.Sched) func(*vs.Result) vx.Exec {
+			w := newWorld(false)
+			ws := w.ws
+			statuses := make([]int, len(urls))
+			for i, u := range urls {
+				i, u := i, u
+				s.Thread(fmt.Sprintf("open%d", i), func() {
+					statuses[i] = w.call("open", u, nil).status
+				})
+			}
+			return func(r *vs.Result) vx.Exec {
+				var x vx.Exec
+				base(r, &x)
+				var dialled []string
+				for _, d := range ws.Dials {
+					dialled = append(dialled, d.Host)
+					if d.Host != "backend.test:8080" {
+						x.Violations = append(x.Violations, fmt.Sprintf("FOREIGN-DIAL: the shim dialled %q (%s); the configured backend is backend.test:8080 (opens %q)", d.Host, d.URL, urls))
+					}
+				}
+				if len(ws.Dials) < len(urls) && len(r.Panics) == 0 {
+					x.Violations = append(x.Violations, fmt.Sprintf("NODIAL: %d opens led to %d dials", len(urls), len(ws.Dials)))
+				}
+				x.Obs = fmt.Sprintf("%v %v", statuses, dialled)
+				return x
+			}
+		}}
+}
+
+func c13Scenarios(th bool) []vx.Scenario {
+	var out []vx.Scenario
+	pb := 2
+	if th {
+		pb = 3
+	}
+	foreign := []string{"ws://evil.example:9/a", "//other.test/b", "wss://user:pw@evil.example/c?x=1", "ws://client.example/d"}
+	for i, a := range foreign {
+		for _, b := range foreign[i:] {
+			out = append(out, c13Opens([]string{a, b}, pb))
+		}
+	}
+	out = append(out, c13Opens([]string{foreign[0], foreign[3], foreign[1]}, pb-1))
+	// the backend answers the handshake with a redirect
+	for _, code := range []string{"301", "302", "303", "307", "308"} {
+		for _, to := range []string{"ws://evil.example/x", "http://evil.example/x", "https://evil.example:444/x", "//evil.example/x", "/elsewhere"} {
+			q := url.Values{"code": {code}, "to": {to}}.Encode()
+			sc := c13Opens([]string{"ws://client.example/redir?" + q}, 0)
+			out = append(out, sc)
+		}
+	}
+	out = append(out, c13Opens([]string{"ws://client.example/redir?" + url.Values{"to": {"ws://evil.example/x"}}.Encode(), "ws://client.example/plain"}, pb))
+	return out
+}
+
 func c12Scenarios(th bool) []vx.Scenario {
 	var out []vx.Scenario
 	al := c12Alphabet()
@@ -877,6 +948,9 @@ func main() {
 	vx.Main(&vx.Harness{Property: *prop, Name: "shim-" + strings.ToLower(*prop), Scenarios: func(tier string) []vx.Scenario {
 		if *prop == "C11" {
 			return c11Scenarios(tier == "thorough")
+		}
+		if *prop == "C13" {
+			return c13Scenarios(tier == "thorough")
 		}
 		return c12Scenarios(tier == "thorough")
 	}})
